@@ -47,6 +47,7 @@ type Step struct {
 	Wait  bool          `json:"wait,omitempty"`  // stopctx WaitForDemote
 	Timeout time.Duration `json:"timeout,omitempty"`
 	CtxTimeout time.Duration `json:"ctxtimeout,omitempty"`
+	Cancelled bool           `json:"cancelled,omitempty"` // validate / validate-or-demote: the caller's context (no deadline) is already cancelled
 	N     int           `json:"n,omitempty"`
 }
 
@@ -87,6 +88,7 @@ type Scenario struct {
 	NoPreempt  bool `json:"nopreempt"`  // no instance has takeover enabled
 	FaultFree  bool `json:"faultfree"`  // all of the above + healthy + no connection events + no watch failures
 	MockErrs   bool          `json:"mockerrs,omitempty"` // the store words its refusals like the package's mock
+	BareSeq    bool          `json:"bareseq,omitempty"`  // a refused Create is the server's bare "wrong last sequence" error
 	MaxLat     time.Duration `json:"maxlat"`    // promised bound on the latency of every answered operation (0 = no promise)
 	FaultsEnd  time.Duration `json:"faultsend"` // no injected fault, partition or lost watch event after this instant (0 = there are none at all)
 	ConnOnly   bool `json:"connonly"`   // the only disturbances are connection notifications (store responsive, no outside writer, healthy)
@@ -205,8 +207,12 @@ func (h scriptedHealth) Check(ctx context.Context) bool {
 	if r == 3 {
 		time.Sleep(95 * time.Millisecond)
 	}
+	if r == 4 || r == 5 {
+		// a checker that takes all the time it is given: it answers when its context expires (4: healthy, 5: unhealthy)
+		<-ctx.Done()
+	}
 	res := 1
-	if r == 0 {
+	if r == 0 || r == 5 {
 		res = 0
 	}
 	h.rt.tr.logf("health %d %d %d %d", h.rt.spec.ID, k, res, rem)
@@ -272,6 +278,7 @@ func runScenario(t *testing.T, sc *Scenario) (res *ScenarioResult) {
 		tr = newTrace()
 		store := newRefStore(tr, sc.StoreTTL)
 		store.mockErrs = sc.MockErrs
+		store.bareSeq = sc.BareSeq
 		store.planFn = func(inst int, op string, nth int) OpPlan {
 			if p, ok := sc.Plans[fmt.Sprintf("%d:%d", inst, nth)]; ok {
 				return p
@@ -671,6 +678,20 @@ func execStep(tr *Trace, store *RefStore, rts map[int]*instRT, st Step, apiSeq *
 		if rt == nil {
 			return
 		}
+		if st.Cancelled {
+			// (in the trace a context time-out of 1 ns stands for "cancelled before the call")
+			api("validate 1", func() string {
+				ctx, cancel := context.WithCancel(context.Background())
+				cancel()
+				tok := tr.tok(rt.el.Token())
+				ok, err := rt.el.ValidateToken(ctx)
+				if ok {
+					return fmt.Sprintf("val true %d", tok)
+				}
+				return fmt.Sprintf("val false %d %s", tok, errs(err))
+			})
+			return
+		}
 		api(fmt.Sprintf("validate %d", int64(st.CtxTimeout)), func() string {
 			ctx := context.Background()
 			if st.CtxTimeout > 0 {
@@ -689,9 +710,17 @@ func execStep(tr *Trace, store *RefStore, rts map[int]*instRT, st Step, apiSeq *
 		if rt == nil {
 			return
 		}
-		api(fmt.Sprintf("validate-or-demote %d", int64(st.CtxTimeout)), func() string {
+		cto := int64(st.CtxTimeout)
+		if st.Cancelled {
+			cto = 1 // (in the trace a context time-out of 1 ns stands for "cancelled before the call")
+		}
+		api(fmt.Sprintf("validate-or-demote %d", cto), func() string {
 			ctx := context.Background()
-			if st.CtxTimeout > 0 {
+			if st.Cancelled {
+				var cancel context.CancelFunc
+				ctx, cancel = context.WithCancel(ctx)
+				cancel()
+			} else if st.CtxTimeout > 0 {
 				var cancel context.CancelFunc
 				ctx, cancel = context.WithTimeout(ctx, st.CtxTimeout)
 				defer cancel()
